@@ -21,7 +21,13 @@ use std::sync::atomic::{AtomicBool, AtomicU8, Ordering};
 pub static WRITE_VIA_RENAME: AtomicBool = AtomicBool::new(false);
 pub static LIST_SKIPS_TMP: AtomicBool = AtomicBool::new(false);
 pub static SHORT_WALLET: AtomicU8 = AtomicU8::new(0);
+/// a write fails when `<key>.tmp` is lying around from an interrupted write (measured)
+pub static STALE_TMP_BLOCKS_WRITE: AtomicBool = AtomicBool::new(false);
 pub const TMP_SUFFIX: &str = ".tmp";
+
+pub fn set_stale_tmp(blocks: bool) {
+    STALE_TMP_BLOCKS_WRITE.store(blocks, Ordering::SeqCst);
+}
 
 pub fn set_io_model(write: &str, list: &str, short_wallet: &str) {
     WRITE_VIA_RENAME.store(write == "rename", Ordering::SeqCst);
@@ -209,6 +215,13 @@ impl InterfaceIO for MemIo {
         st.op_seq += 1;
         if st.fail_write_at == Some(seq) {
             return Err(Error::from(ErrorKind::Other));
+        }
+        if STALE_TMP_BLOCKS_WRITE.load(Ordering::SeqCst) && st.files.contains_key(&format!("{}{}", key, TMP_SUFFIX)) {
+            return Err(Error::from(ErrorKind::AlreadyExists));
+        }
+        // a completed temporary-file write replaces whatever leftover there was
+        if WRITE_VIA_RENAME.load(Ordering::SeqCst) {
+            st.files.remove(&format!("{}{}", key, TMP_SUFFIX));
         }
         if st.journal_on {
             st.journal.push(JournalOp {
